@@ -12,3 +12,4 @@ import EmuVerif.Props.C34
 #print axioms EmuVerif.Props.C34.bitstring_counts_add
 #print axioms EmuVerif.Props.C34.mean_weights_reps
 #print axioms EmuVerif.Props.C34.full_statement
+#print axioms EmuVerif.Props.C34.handed_independent_if_state_preserved
